@@ -40,3 +40,30 @@ Definition lsrc_allowed (s : lsrc) : bool :=
 
 Definition lsrc_is_exc (s : lsrc) : bool := match s with SrcExcInfo => true | _ => false end.
 Definition lsrc_is_const (s : lsrc) : bool := match s with SrcConst => true | _ => false end.
+
+(* ------------------------------------------------------------------ Client.login as a program
+   code, info = await self.command(<first>, <expected>)
+   while code.matches(<loop mask>):
+       [censor_after = <reset>]                       (first statement of the loop body)
+       if code == "<c1>": cmd = "<prefix1>" + <arg1> [; censor_after = <k1>]
+       elif code == "<c2>": ...
+       else: raise StatusCodeError(...)
+       code, info = await self.command(cmd, <expected>, censor_after=censor_after)
+   Texts are code points (list Z); a censor value None is represented by 0 (falsy). *)
+Inductive login_arg : Type := ArgUser | ArgPassword | ArgAccount.
+
+Record login_branch := {
+  lb_code : list Z;                 (* the reply code this branch answers ("" for the first command) *)
+  lb_prefix : list Z;               (* literal the command starts with *)
+  lb_arg : login_arg;               (* the parameter appended to it *)
+  lb_censor : option Z              (* Some k: the branch binds censor_after = k; None: it does not bind it *)
+}.
+
+Record login_prog := {
+  lp_first : login_branch;          (* the command sent before the loop (never censored: command() default) *)
+  lp_expected : list (list Z);      (* expected codes of every command of login *)
+  lp_loop_mask : list Z;            (* while code.matches(mask) *)
+  lp_init_censor : option Z;        (* censor_after bound to a constant before the loop *)
+  lp_reset : option Z;              (* censor_after re-bound to a constant at the top of every iteration *)
+  lp_branches : list login_branch
+}.
